@@ -16,7 +16,7 @@ from ..program import all_exprs, is_assign_op, rel
 # settings being set once before the threads start")
 LOG_SETTERS = ('zck_set_log_level', 'zck_set_log_fd', 'zck_set_log_callback')
 
-MT_UNSAFE = ('umask', 'strtok', 'rand', 'srand', 'random', 'srandom', 'drand48', 'lrand48', 'localtime', 'gmtime',
+MT_UNSAFE = ('umask', 'signal', 'sigaction', 'sigset', 'sigignore', 'bsd_signal', 'sysv_signal', '__sysv_signal', 'setrlimit', 'strtok', 'rand', 'srand', 'random', 'srandom', 'drand48', 'lrand48', 'localtime', 'gmtime',
              'ctime', 'asctime', 'setenv', 'putenv', 'unsetenv', 'readdir', 'getpwnam', 'getpwuid',
              'getgrnam', 'getgrgid', 'tmpnam', 'ttyname', 'setlocale', 'strsignal', 'ecvt', 'fcvt',
              'gethostbyname', 'getlogin', 'crypt', 'chdir', 'fchdir', 'dirname', 'l64a', 'inet_ntoa')
